@@ -95,7 +95,9 @@ pub fn install_panic_hook() {
 /// Catch a panic of the *subject* without printing it.
 pub fn catch_quiet<T>(f: impl FnOnce() -> T) -> Caught<T> {
     let prev = QUIET_PANICS.with(|q| q.replace(true));
+    crate::watchdog::enter();
     let r = catch(f);
+    crate::watchdog::end();
     QUIET_PANICS.with(|q| q.set(prev));
     r
 }
@@ -194,3 +196,16 @@ pub fn par_map_until<T: Send, F: Fn(usize) -> T + Sync>(n: usize, deadline: std:
     let g = |i: usize| if std::time::Instant::now() >= deadline { None } else { Some(f(i)) };
     par_map(n, g)
 }
+
+/// `format!("{:?}", x)` of a value of the *subject*; its Debug/Display code may panic after a change to the crate, which
+/// must not take the harness down (the string only feeds the state fingerprint).
+pub fn debug_string<T: core::fmt::Debug>(x: &T) -> String {
+    match catch_quiet(|| format!("{:?}", x)) {
+        Caught::Ok(s) => s,
+        Caught::Panic(_) => {
+            DEBUG_PANICKED.store(true, std::sync::atomic::Ordering::Relaxed);
+            "<Debug formatting of the subject panicked>".to_string()
+        }
+    }
+}
+pub static DEBUG_PANICKED: std::sync::atomic::AtomicBool = std::sync::atomic::AtomicBool::new(false);
